@@ -625,15 +625,50 @@ func checkExpiryPass(c *Ctx, fn *ssa.Function) {
 	// validity calls
 	nSites := 0
 	overSlice, overMap := false, false
+	// the validity tests of the pass: its own, or - test and removal moved together into a helper - one per call of
+	// that helper, the certificate and the clock being what the call hands over
+	type vtest struct {
+		cv          *ssa.Call
+		certV, nowV ssa.Value
+	}
+	var tests []vtest
 	for _, call := range callsIn(fn) {
 		cv, ok := call.(*ssa.Call)
-		if !ok || !strings.HasSuffix(calleeName(cv), "sshutils/cert.ValidateSSHCertTime") {
+		if !ok {
 			continue
 		}
+		if strings.HasSuffix(calleeName(cv), "sshutils/cert.ValidateSSHCertTime") {
+			tests = append(tests, vtest{cv, cv.Call.Args[0], cv.Call.Args[1]})
+			continue
+		}
+		h := w.helperOf(cv)
+		if h == nil || !w.transparent(h) || len(cv.Call.Args) != len(h.Params) {
+			continue
+		}
+		for _, hc := range callsIn(h) {
+			hv, ok := hc.(*ssa.Call)
+			if !ok || !strings.HasSuffix(calleeName(hv), "sshutils/cert.ValidateSSHCertTime") {
+				continue
+			}
+			up := func(v ssa.Value) ssa.Value {
+				if p, isParam := throughCell(strip(v)).(*ssa.Parameter); isParam && p.Parent() == h {
+					if i := paramIndex(p); i >= 0 && i < len(cv.Call.Args) {
+						return cv.Call.Args[i]
+					}
+				}
+				return v
+			}
+			tests = append(tests, vtest{hv, up(hv.Call.Args[0]), up(hv.Call.Args[1])})
+		}
+	}
+	for _, vt := range tests {
+		cv := vt.cv
+		fn := cv.Parent()
+		f := w.factsOf(fn)
 		nSites++
-		c.Check(now != nil && cv.Call.Args[1] == ssa.Value(now), "R4.passes", "expiry|validity tested at this activation's clock", w.Pos(cv.Pos()), "ValidateSSHCertTime(x, now)", "the validity test is not given this activation's time.Now()")
+		c.Check(now != nil && vt.nowV == ssa.Value(now), "R4.passes", "expiry|validity tested at this activation's clock", w.Pos(cv.Pos()), "ValidateSSHCertTime(x, now)", "the validity test is not given this activation's time.Now()")
 		certV := cv.Call.Args[0]
-		origin := w.Origins(certV)
+		origin := w.Origins(vt.certV)
 		for o := range origin {
 			if o == "p2" || strings.HasPrefix(o, "p2.") {
 				overSlice = true
